@@ -29,11 +29,11 @@ import (
 var reAuth = regexp.MustCompile(`invalid (renter|host) signature|signature N is invalid|failed to satisfy spend policy|claims incorrect (policy|unlock conditions)|missing signatures|is redundant|unsigned FoundationAddressUpdate`)
 
 type env struct {
-	b              *harness.B
-	c              *chaingen.Chain
-	per            int
-	directedDone   bool
-	directedV1Done bool
+	b                               *harness.B
+	c                               *chaingen.Chain
+	per                             int
+	directedDone                    bool
+	directedV1Done, directedV1bDone bool
 }
 
 func (e *env) judge(kind, class string, must bool, reason string, cs consensus.State, blk types.Block, kinds []string) {
@@ -859,6 +859,7 @@ func run(b *harness.B) {
 			done += c.Grow(1+rng.IntN(10), chaingen.Plan{MaxTxns: 5})
 			e.directed()
 			e.directedV1()
+			e.directedV1b()
 			if c.Height() > 2 && rng.IntN(6) == 0 {
 				c.RevertTip()
 			}
